@@ -28,7 +28,13 @@ inductive Out (Val Exc : Type) where
                   AttributeError `e` (private name, missing attribute, unexposed member), `none` = it
                   returns the bound method.  It may depend on the state (instance attributes).
     `apply s n a` = the call of method `n` with arguments `a` in state `s`: new state and outcome.
-                  A raising method may have changed the state before it raised. -/
+                  A raising method may have changed the state before it raised.
+                  `exc e` stands for the exception AS SENT: what `Daemon._serializeException` makes of the raised
+                  exception (itself, or the describing PyroError if this instance cannot be serialised).  The batch
+                  loop (server.py:453-455) and the exception response of a plain call (server.py:638-641) apply that
+                  same function of (serializer, exception) — an extracted fact, `Gen.C11.sameSerializeOrFallback` —
+                  so it is part of this arbitrary `apply`.  A value that happens to be an exception OBJECT returned
+                  by a method is an `ok v` like any other value. -/
 structure Obj (St Name Arg Val Exc : Type) where
   gate : St → Name → Option Exc
   apply : St → Name → Arg → St × Out Val Exc
